@@ -40,6 +40,14 @@ class Mux(recorded.Module):
         "a cut is permanent: the socket of that end is closed after exactly k bytes in that direction",
     ]
 
+    def design_proofs(self, prop, tier, sc):
+        # the frame-splitting loop of mux.write() for a payload of any length and any positive frame maximum
+        return vlib.apalache_suite(sc.sub("apalache"), "MuxSplitInd",
+                                   [("Init => IndInv", "Init", "IndInv", 0),
+                                    ("IndInv /\\ Next => IndInv'", "IndInit", "IndInv", 1),
+                                    ("Variant (every iteration writes something)", "IndInit", "Variant", 1)],
+                                   ("size' = Min(s, rem - s)", "size' = s"), cinit="ConstInit")
+
     def mc_configs(self, prop, tier, sd):
         th = tier == "thorough"
         cfgs = []
